@@ -27,23 +27,39 @@ type qqNode struct {
 
 var qqAtoms = []string{"a", "\"s\"", ":k", "3", "()"}
 
+// qqSub generates an element of a list that sits under explicit quote marks or in brackets: the
+// full generator while depth remains, otherwise one of five leaves (symbol, unquote of an int / a
+// symbol / a list value, a splice).
+func qqSub(depth int) *qqNode {
+	if depth >= 0 {
+		return qqGen(depth, true)
+	}
+	n := &qqNode{}
+	switch vndChoice("qleaf", 5) {
+	case 0:
+		n.kind, n.atom = 0, 0
+	case 1:
+		n.kind = 1
+	case 2:
+		n.kind = 6
+	case 3:
+		n.kind = 2
+	case 4:
+		n.kind = 3
+	}
+	return n
+}
+
 func qqGen(depth int, inList bool) *qqNode {
 	n := &qqNode{}
 	opts := 6
 	if inList {
-		opts = 9
-	}
-	if depth < 0 {
-		// below the depth bound: leaves only (case 5, a nested list, is empty at depth <= 0)
-		opts = 5
-		if inList {
-			opts = 6
+		opts = 7
+		if depth >= vParam("qmin", 0) {
+			opts = 9 // quote marks / brackets around a sub-template (the top qmin levels only: bounds the thorough tier)
 		}
 	}
 	k := vndChoice("node", opts)
-	if depth < 0 && k == 5 {
-		k = 6
-	}
 	switch k {
 	case 7:
 		// explicit quote marks (one or two) in front of a sub-template: the sub-template is still
@@ -62,18 +78,24 @@ func qqGen(depth int, inList bool) *qqNode {
 			c.kind, c.atom = 0, 0
 		case 3:
 			c.kind = 4
-			nk := 1 + vndChoice("qkids", 2)
+			nk := 1
+			if vndChoice("qkids", vParam("qkids", 1)) == 1 {
+				nk = 2
+			}
 			for i := 0; i < nk; i++ {
-				c.kids = append(c.kids, qqGen(depth-1, true))
+				c.kids = append(c.kids, qqSub(depth-1))
 			}
 		}
 		n.kids = []*qqNode{c}
 	case 8:
 		// a bracket list is a quoted list
 		n.kind = 8
-		nk := 1 + vndChoice("bkids", 2)
+		nk := 1
+		if vndChoice("bkids", vParam("qkids", 1)) == 1 {
+			nk = 2
+		}
 		for i := 0; i < nk; i++ {
-			n.kids = append(n.kids, qqGen(depth-1, true))
+			n.kids = append(n.kids, qqSub(depth-1))
 		}
 	case 0:
 		n.kind, n.atom = 0, vndChoice("atom", len(qqAtoms))
